@@ -1,7 +1,7 @@
 (* Proofs for property C01 (statements explained in Props/Properties_C01.v). *)
 From Coq Require Import NArith ZArith List Bool Lia.
 From F8 Require Import Codec.Bytes Codec.Meta Codec.Extract Codec.Decode Codec.Encode Codec.Render Codec.Example
-                       C02.Spec_C02 C02.WfC02 C02.AuxProofs C02.RenderProofs C02.EncodeProofs C01.Spec_C01 C01.WfC01 C01.FlatTheorem.
+                       C02.Spec_C02 C02.WfC02 C02.AuxProofs C02.RenderProofs C02.EncodeProofs C01.Spec_C01 C01.WfC01 C01.WfGroups C01.FlatTheorem C01.GroupRoundtripTheorem.
 Import ListNotations.
 Local Open Scope N_scope.
 
@@ -82,4 +82,11 @@ Qed.
 Lemma c01_partial_nonvacuous_lemma :
   render_ok ex_ctx /\ wf_msg ex_ctx ex_hb_neg = true /\ fresh ex_hb_neg = true /\ vals_canonical ex_ctx ex_hb_neg = true /\
   c01_flat ex_ctx ex_hb_neg = true /\ hdr_val ex_hb_neg 34 = Some [45; 53].
+Proof. split; [apply render_default_ok; reflexivity|]. repeat split; vm_compute; reflexivity. Qed.
+
+(* the message with two orders, the second with two nested allocations, meets every hypothesis of
+   c01_roundtrip_groups_partial *)
+Lemma c01_groups_nonvacuous_lemma :
+  render_ok ex_ctx /\ wf_msg ex_ctx ex_list = true /\ fresh ex_list = true /\ vals_canonical ex_ctx ex_list = true /\
+  c01_groups ex_ctx ex_list = true.
 Proof. split; [apply render_default_ok; reflexivity|]. repeat split; vm_compute; reflexivity. Qed.
